@@ -1508,6 +1508,8 @@ func (check) Run(seed int64, tier string, idx int, verbose bool) harness.Result 
 	}
 	topLevelPhase(res, r, tree, g.hasDot, dir, stem, verbose)
 	sequencePhase(res, r, g, variants, types[0], dir, verbose)
+	refFaultPhase(res, r, g, tree, dir, stem, verbose)
+	crossPhase(res, r, dir, stem, verbose)
 	return res.Done()
 }
 
